@@ -86,6 +86,8 @@ class OsModel:
         del fs.plain[path]
         fs.op('unlink', path)
 
+    m_remove = m_unlink        # os.remove is os.unlink
+
     @staticmethod
     def m_rename(ex, o, src, dst):
         fs = o.f['fs']
